@@ -623,3 +623,37 @@ func (c *Check) UsesGuarded(rule, constructPrefix string, callee Callee, valIdx 
 	c.Sites(sites)
 	return sites
 }
+
+// DominatingConds returns, for instruction ins, the branch conditions that hold on every path to it:
+// (cond value, outcome) of each If whose one successor dominates ins's block while the other does not.
+func DominatingConds(ins ssa.Instruction) []struct {
+	Cond ssa.Value
+	Want bool
+} {
+	var out []struct {
+		Cond ssa.Value
+		Want bool
+	}
+	b := ins.Block()
+	for d := b.Idom(); d != nil; d = d.Idom() {
+		iff, ok := d.Instrs[len(d.Instrs)-1].(*ssa.If)
+		if !ok {
+			continue
+		}
+		t, f := d.Succs[0], d.Succs[1]
+		td := (t == b || t.Dominates(b)) && len(t.Preds) == 1
+		fd := (f == b || f.Dominates(b)) && len(f.Preds) == 1
+		if td && !fd {
+			out = append(out, struct {
+				Cond ssa.Value
+				Want bool
+			}{iff.Cond, true})
+		} else if fd && !td {
+			out = append(out, struct {
+				Cond ssa.Value
+				Want bool
+			}{iff.Cond, false})
+		}
+	}
+	return out
+}
